@@ -43,7 +43,7 @@ func c01Bursts(r *hx.Run, w *W, ps *plans, rnd *rand.Rand, n int) {
 		models := make([]*entryModel, k)
 		for i := range uris {
 			uris[i] = fmt.Sprintf("/c01/%d/%d/%d", r.Seed, bi, i)
-			models[i] = &entryModel{}
+			models[i] = &entryModel{TolerateStale: true}
 		}
 		a := ans{Kind: "cacheable", T: t}
 		for e := 0; e < epochs; e++ {
